@@ -376,7 +376,17 @@ fn edit_text(t: &TextRef, txn: &mut TransactionMut, r: &mut Rng, cfg: &EditCfg, 
     if choice < 4 || n == 0 {
         let p = *r.pick(&pos); let s = rand_string(r);
         script.push(format!("{name}.insert({p},{s:?})"));
+        // placed where inserted: on a text without embeds the new string is the old one with `s` spliced in at offset p (in the
+        // document's offset unit); a mismatch is reported through the script (entries starting with "!!PLACEMENT")
+        let before = if chunks.iter().all(|d| matches!(d.insert, Out::Any(Any::String(_)))) { Some(t.get_string(txn)) } else { None };
         t.insert(txn, p, &s);
+        if let Some(b) = before {
+            let mut acc = 0u32; let mut cut = b.len();
+            for (bi, ch) in b.char_indices() { if acc >= p { cut = bi; break; } acc += if bytes { ch.len_utf8() } else { ch.len_utf16() } as u32; }
+            let exp = format!("{}{}{}", &b[..cut], s, &b[cut..]);
+            let got = t.get_string(txn);
+            if got != exp { script.push(format!("!!PLACEMENT {name}.insert({p},{s:?}) on {b:?}: expected {exp:?}, the text is {got:?}")); }
+        }
     } else if choice < 6 && cfg.deletes {
         let i = r.below(n as u64) as usize; let j = r.range(i as u64 + 1, (n as u64).min(i as u64 + 4)) as usize;
         script.push(format!("{name}.remove_range({},{})", pos[i], pos[j] - pos[i]));
